@@ -503,10 +503,11 @@ const (
 	TwBadBody   Twist = "bad-payload"       // payload columns carry malformed documents
 	TwHugeValue Twist = "huge-value"        // numeric columns carry extreme values
 	TwFewCols   Twist = "fewer-columns"     // the result has one column less than scanned
+	TwTwins     Twist = "twin-series"       // one label set stored under several fingerprints (the fingerprints of the sample and of the label statement agree)
 	TwCycle     Twist = "cyclic-tree"       // a stored call tree with a parent/child cycle, a self-parent, repeated node ids; other kinds: every row twice
 )
 
-var Twists = []Twist{TwStrForNum, TwNull, TwWrongType, TwFp0, TwTsOutside, TwShortID, TwBadBody, TwHugeValue, TwFewCols, TwCycle}
+var Twists = []Twist{TwStrForNum, TwNull, TwWrongType, TwFp0, TwTsOutside, TwShortID, TwBadBody, TwHugeValue, TwFewCols, TwCycle, TwTwins}
 
 var badPayloads = []string{"", "{", "{}", "[]", "null", `{"name":1,"tags":[1],"localEndpoint":"x","annotations":{"a":1}}`, `{"attributes":[1]}`, `{"attributes":[{"key":"service.name","value":3}]}`,
 	`{"attributes":[{"key":"a"}],"events":[{"timeUnixNano":"1"}]}`, `{"traceId":5}`, `{"traceId":"!!"}`, "\x0a\x03abc\xff\xff\xff", "\x00", `{"events":[1,2]}`, `{"attributes":[{"key":"a","value":{"stringValue":1}}]}`,
@@ -613,6 +614,37 @@ func ApplyTwist(k Kind, tw Twist, r *rand.Rand, rows [][]driver.Value) ([]string
 				}
 			}
 		})
+	case TwTwins:
+		// fingerprints become 1001, 1002, ... in their order (the same in every statement of the request); every row
+		// carries the label set of the first
+		fj := -1
+		for i, c := range spec {
+			if c.Name == "fingerprint" {
+				fj = i
+			}
+		}
+		if fj < 0 {
+			break
+		}
+		next, ids := uint64(1001), map[uint64]uint64{}
+		lj := pick("pairs", "map")
+		for i := range rows {
+			if fp, ok := rows[i][fj].(uint64); ok {
+				if _, seen := ids[fp]; !seen {
+					ids[fp] = next
+					next++
+				}
+				rows[i][fj] = ids[fp]
+			}
+			if lj >= 0 && i > 0 {
+				switch l := rows[0][lj].(type) {
+				case map[string]string:
+					rows[i][lj] = cloneMap(l)
+				default:
+					rows[i][lj] = rows[0][lj]
+				}
+			}
+		}
 	case TwCycle:
 		j := pick("tree")
 		if j < 0 {
